@@ -115,6 +115,14 @@ def _child(i, case, fn, resdir, workroot, quiet):
         from . import typefuzz
         for k, v in typefuzz.STATS.items():
             rec.obs[k] = rec.obs.get(k, 0) + v
+        for tsig, exc in typefuzz.REFUSED.items():
+            if tsig in typefuzz.ACCEPTED:
+                # the callable takes these argument types for other inputs: what it raised here is not a refusal
+                rec.violations.append({"what": f"{tsig[0]} raised {exc.split(':')[0]} for an input it handles when given built-in "
+                                               f"types, although it accepts {dict(tsig[1]) or 'positional arguments'} for other inputs",
+                                       "mech": "argument-type-inconsistent", "witness": {"types": list(tsig[1]), "positional": tsig[2], "exception": exc},
+                                       "key": None})
+                rec.evals += 1
         for k, v in common.ARGV_FORMS.items():
             rec.obs["argv_spelling:" + k] = rec.obs.get("argv_spelling:" + k, 0) + v
         out["rec"] = rec.dump()
